@@ -13,7 +13,10 @@ import (
 	"github.com/pion/dtls/v3/pkg/crypto/hash"
 	"github.com/pion/dtls/v3/pkg/crypto/signature"
 	"github.com/pion/dtls/v3/pkg/protocol/handshake"
+	dtlsflight "github.com/pion/dtls/v3/internal/flight"
+	dtlsstate "github.com/pion/dtls/v3/internal/state"
 	"github.com/pion/dtls/v3/zzverif/checks"
+	"github.com/pion/dtls/v3/zzverif/refimpl"
 	"github.com/pion/dtls/v3/zzverif/run"
 	"github.com/pion/dtls/v3/zzverif/world"
 )
@@ -189,6 +192,8 @@ func scenarios(p *world.PKI) []scen {
 						w = mustFail
 					}
 					add("no-certificate", w, func(c, s *world.Cfg) { c.Cert = nil; c.Cred = "none" }, nil)
+					// the rogue leaves the Certificate message out altogether (the library client would send an empty one)
+					add("certificate-message-omitted", w, func(c, s *world.Cfg) { c.Cert = nil; c.Cred = "none" }, world.DropMessages(cliFlight, handshake.TypeCertificate))
 					chain := mayComplete
 					if verified {
 						chain = mustFail
@@ -335,6 +340,178 @@ func c03Run(t *testing.T, p *world.PKI, sc scen, m world.Mask, seed uint64) run.
 	return o
 }
 
+// ---- second attempt: what the refused peer can do with what the first attempt left behind ---------------
+
+// plantedStore is the attacker's client-side session store: whatever key the library looks up, it finds
+// the one session the attacker learned during the first attempt (session ID from the ServerHello on the
+// wire, master secret from the attacker's own key exchange).
+type plantedStore struct{ s dtls.Session }
+
+func (p *plantedStore) Set([]byte, dtls.Session) error { return nil }
+func (p *plantedStore) Get([]byte) (dtls.Session, error) {
+	return dtls.Session{ID: append([]byte(nil), p.s.ID...), Secret: append([]byte(nil), p.s.Secret...)}, nil
+}
+func (p *plantedStore) Del([]byte) error { return nil }
+
+// serverHelloSessionID finds the session ID the server assigned in its (last) ServerHello.
+func serverHelloSessionID(w *world.World, from world.Addr) []byte {
+	var sid []byte
+	for _, d := range w.Emitted() {
+		if d.Src != from {
+			continue
+		}
+		recs, _ := world.ParseDatagram(d.Data, 0)
+		for _, r := range recs {
+			for _, h := range r.HS {
+				if h.Type == 2 && h.FragOff == 0 && len(h.Body) >= 35 {
+					n := int(h.Body[34])
+					if len(h.Body) >= 35+n && n > 0 {
+						sid = append([]byte(nil), h.Body[35:35+n]...)
+					}
+				}
+			}
+		}
+	}
+	return sid
+}
+
+// c03Second runs a must-fail rogue-client scenario against a server that has a session store, in one of
+// two modes — "refused": the first attempt runs until the server has refused it; "withheld": the rogue
+// sends everything but its Finished, so the first attempt stays pending — and then lets the same rogue
+// (same missing credential) connect again from another address, offering the session ID of the first
+// attempt with the master secret it computed there. The honest server must not report an established
+// connection on the second attempt either: the peer still lacks the credential the policy demands.
+func c03Second(t *testing.T, p *world.PKI, sc scen, mode string, seed uint64) run.Outcome {
+	var o run.Outcome
+	world.Run(t, seed, func(w *world.World) {
+		store := world.NewMapStore()
+		scfg := sc.s
+		scfg.Store = store
+		// The rogue does not offer the extended master secret (its choice; the server's default policy only
+		// requests it): the master secret then depends on the key exchange alone, so the library-built rogue
+		// holds the same secret as the server even when it leaves messages out of its flight.
+		rcfg := sc.c
+		rcfg.EMS = 2
+		c, err := w.NewEndpoint(p, true, world.ClientAddr, world.ServerAddr, rcfg)
+		if err != nil {
+			o.Skip = true
+			return
+		}
+		s, err := w.NewEndpoint(p, false, world.ServerAddr, world.ClientAddr, scfg)
+		if err != nil {
+			o.Skip = true
+			return
+		}
+		pr := &world.Pair{W: w, C: c, S: s, FirstID: w.EmittedCount()}
+		ed := sc.editor
+		if mode == "withheld" {
+			drop := world.DropMessages("Flight 5", handshake.TypeFinished)
+			prev := ed
+			ed = func(e *world.Endpoint, st dtlsstate.Active, fl string, pkts []*dtlsflight.Packet) []*dtlsflight.Packet {
+				if prev != nil {
+					pkts = prev(e, st, fl, pkts)
+				}
+				return drop(e, st, fl, pkts)
+			}
+		}
+		if ed != nil {
+			c.SetFlightEditor(ed)
+		}
+		c.StartHandshake()
+		w.Settle()
+		s.StartHandshake()
+		w.Settle()
+		n := world.NewNet(w, world.ClientAddr, nil)
+		if mode == "withheld" {
+			_ = n.Pump(900*time.Millisecond, pr.BothDone) // before any retransmission: the first attempt is pending
+		} else {
+			_ = n.Pump(25*time.Second, pr.BothDone)
+			n.Flush()
+		}
+		first := "refused"
+		if s.HS.OK() {
+			first = "established"
+		} else if !s.HS.Done() {
+			first = "pending"
+		}
+		sid := serverHelloSessionID(w, world.ServerAddr)
+		entries, _ := refimpl.ParseKeyLog(strings.NewReader(c.KeyLog.String()))
+		var secret []byte
+		for _, e := range entries {
+			if e.Label == "CLIENT_RANDOM" {
+				secret = e.Secret
+			}
+		}
+		o.Counters = map[string]int{"second_attempt_first_" + first: 1}
+		if len(sid) == 0 || len(secret) == 0 {
+			// the first attempt never got far enough for the attacker to learn a session
+			o.Class = fmt.Sprintf("second/%s/first=%s/nothing-learned", mode, first)
+			o.NonTrivial = false
+			pr.CloseAll()
+			return
+		}
+		stored := len(store.Snapshot())
+		ccfg := rcfg
+		ccfg.Store = &plantedStore{s: dtls.Session{ID: sid, Secret: secret}}
+		const c2, s2 = world.Addr("10.0.0.5:5555"), world.Addr("10.0.0.6:6666")
+		rc, err := w.NewEndpoint(p, true, c2, s2, ccfg)
+		if err != nil {
+			o.Skip = true
+			pr.CloseAll()
+			return
+		}
+		hs, err := w.NewEndpoint(p, false, s2, c2, scfg)
+		if err != nil {
+			o.Skip = true
+			pr.CloseAll()
+			return
+		}
+		if sc.editor != nil {
+			rc.SetFlightEditor(sc.editor)
+		}
+		pr2 := &world.Pair{W: w, C: rc, S: hs, FirstID: w.EmittedCount()}
+		rc.StartHandshake()
+		w.Settle()
+		hs.StartHandshake()
+		w.Settle()
+		_ = n.Pump(25*time.Second, pr2.BothDone)
+		n.Flush()
+		established := hs.HS.OK() || hs.Snapshot().Established
+		var got []byte
+		if established && rc.HS.OK() {
+			wr := w.Go("rogue.Write", func(*world.Op) error { _, e := rc.Conn.Write([]byte("rogue-data")); return e })
+			_ = n.Pump(2*time.Second, wr.Done)
+			n.Flush()
+			_ = hs.Conn.SetReadDeadline(time.Now().Add(50 * time.Millisecond))
+			rd := w.Go("honest.Read", func(op *world.Op) error {
+				b := make([]byte, 256)
+				k, e := hs.Conn.Read(b)
+				op.Set(k, append([]byte(nil), b[:k]...))
+				return e
+			})
+			w.Sleep(60 * time.Millisecond)
+			if rd.Done() {
+				got = rd.Data
+			}
+		}
+		o.NonTrivial = true
+		res := "refused"
+		if established {
+			res = "established"
+		}
+		o.Class = fmt.Sprintf("second/%s/first=%s/server-store-entries=%d/%s", mode, first, stored, res)
+		if established {
+			o.Key = "second-attempt-resumes-unauthenticated-session:" + mode
+			o.Violation = fmt.Sprintf("scenario=%s second attempt (%s): the peer still lacks the required credential (%s) but the honest server reported an established connection on its second attempt: it resumed session %x, which the server stored during the first attempt (first attempt: %s; server store held %d entries) before the peer had proved anything; data delivered to the application=%q",
+				sc.name, mode, sc.devKind, sid, first, stored, got)
+		}
+		o.Sample = map[string]any{"scenario": sc.name, "mode": mode, "first_attempt": first, "server_store_entries_after_first": stored, "second_attempt": res}
+		pr2.CloseAll()
+		pr.CloseAll()
+	})
+	return o
+}
+
 func c03Key(sc scen) string {
 	if sc.v13 && !sc.rogueClient && strings.HasPrefix(sc.devKind, "no-certificate") {
 		return "F5-dtls13-client-accepts-server-flight-without:" + sc.devKind
@@ -363,6 +540,15 @@ func TestC03(t *testing.T) {
 		for _, m := range masks {
 			sc, m := sc, m
 			cases = append(cases, run.Case{ID: sc.name + "/" + m.String(), Run: func(t *testing.T) run.Outcome { return c03Run(t, p, sc, m, env.Seed+1) }})
+		}
+	}
+	for _, sc := range scs {
+		if !sc.rogueClient || sc.v13 || sc.want != mustFail {
+			continue
+		}
+		for _, mode := range []string{"refused", "withheld"} {
+			sc, mode := sc, mode
+			cases = append(cases, run.Case{ID: sc.name + "/second-attempt-" + mode, Run: func(t *testing.T) run.Outcome { return c03Second(t, p, sc, mode, env.Seed+1) }})
 		}
 	}
 	run.Main(t, "C03", cases, map[string]any{"scenarios": len(scs), "masks": len(masks), "max_faults": k, "N_per_direction": 5})
